@@ -464,6 +464,9 @@ def body(draw, env, depth, n_min=1, n_max=None, need_consuming=True, first_must_
             push(("try", reasons, b, h))
         elif k == "foreach":
             b = draw(body(env, depth - 1, 1, 2, first_must_match=True, leading_actions=False, allow_terminal=False))
+            if draw(st.integers(0, 3)) == 0:
+                # a wait inside the foreach body: its skipped bytes are read by the body too
+                b = (("wait", draw(match(cfg, closed=True, allow_cat=False))),) + tuple(b[1:])
             # (no char-append among foreach actions: the reference does not say whether the triggering byte counts as consumed when it overflows)
             acts = [a for a in [draw(action(env, allow=("assign", "hook", "delete", "assignstr"), last_ok=cfg.allow_last))
                                 for _ in range(draw(st.integers(1, 2)))] if a is not None]
@@ -482,6 +485,14 @@ def body(draw, env, depth, n_min=1, n_max=None, need_consuming=True, first_must_
         push(("match", draw(literal(cfg))))
     if ends_with_break and env.loops:
         push(("break", None))
+    if obey and out:
+        # open finding (C01): actions that follow a block whose last consuming statement may be skipped (optional, ...) are lost on the
+        # skip path.  Blocks therefore end with a closed statement after such a construct.
+        last_consuming = next((x for x in reversed(out) if not ir.is_action(x)), None)
+        if last_consuming is not None and last_consuming[0] != "loop" and ir.stmt_summary(last_consuming, []).nullable:
+            sep = _separator(draw, cur.tail)
+            if sep is not None:
+                push(sep)
     return tuple(out)
 
 
@@ -536,6 +547,12 @@ def loop_stmt(draw, env, depth, followed):
             return ("loop", name, tuple(pre) + (("case", False, tuple(clauses)),))
         # if-break: a closed match, then a conditional break on data
         m = draw(match(cfg, closed=True, allow_cat=False))
+        if env.ints and draw(st.booleans()):
+            # counting loop: the break really happens after k iterations
+            v = draw(st.sampled_from(env.ints))[1]
+            k = draw(st.integers(1, 3))
+            return ("loop", name, (("match", m), ("assign", v, ("bin", "+", ("var", v), ("num", 1, "dec"))),
+                                   ("if", ((("bin", draw(st.sampled_from(["==", ">="])), ("var", v), ("num", k, "dec")), (("break", None),)),), None)))
         cond = draw(condition(env, last_ok=cfg.allow_last))
         return ("loop", name, (("match", m), ("if", ((cond, (("break", None),)),), None)))
     finally:
